@@ -301,6 +301,15 @@ def w_grid(acc):
         acc.run("setter", o_setter, {"value": v}, True)
 
 
+def w_large(acc, n):
+    entry = {"t": "entry", "type": "misc", "key": "big", "fields": [["k%d" % i + "x" * (i % 23), "{v%d}" % i, i] for i in range(n)], "line": 0, "raw": "r"}
+    many = [{"t": "entry", "type": "a", "key": "e%d" % i, "fields": [["f" + "y" * (i % 17), "{%d}" % i, 0]], "line": i, "raw": "r"} if i % 5 else {"t": "failed", "raw": "@bad{%d,\n x" % i, "line": i} for i in range(n)]
+    for f in ({"value_column": "auto"}, {"value_column": 12, "trailing_comma": True, "block_separator": "\n"}, None):
+        acc.run("write", o_write, {"lib": [entry], "fmt": f, "via": "writer"}, True)
+        acc.run("write", o_write, {"lib": many, "fmt": f, "via": "write_string"}, True)
+    acc.classes["large-library"] += 1
+
+
 def w_columns(acc, lo, hi):
     keysets = []
     pool = ["a", "ab", "abcdefg", "abcdefghijklmnopqrstuvwxyzabcd"]
@@ -346,7 +355,7 @@ def w_random(acc, n, seed):
 
 def run(chk):
     quick = chk.tier == "quick"
-    tasks = [("w_grid", ())]
+    tasks = [("w_grid", ())] + [("w_large", (n,)) for n in (130, 300, 1100)]
     for lo, hi in harness.chunks(N_COLUMN_CASES, 12):
         tasks.append(("w_columns", (lo, hi)))
     n_rand = 20000 if quick else 400000
